@@ -217,6 +217,12 @@ def run_property(pid, spec, tier, seed, work, t0, replay=None, no_prove=False):
         "exhaustive": bool(spec.get("exhaustive", {}).get(tier, False)),
         "two_build_comparison": two_note,
     }
+    certs = [dl for c, dl in zip(cases, drvl) if c.startswith("cert ")]
+    if certs:
+        cov["certificates"] = {"zones": len(certs),
+                               "zone_ok_true": sum(1 for x in certs if "zone_ok=1" in x),
+                               "table_sorted_true": sum(1 for x in certs if "sorted=1" in x),
+                               "note": "zone_ok / table_sorted are the boolean hypotheses of the refinement and selection theorems, evaluated by the extracted model on each zone it loaded"}
     cov.update(spec.get("extra_cov", {}))
     C.write_evidence(pid, tier, seed, cov, time.time() - t0, violations, spec.get("assumptions", []))
     if rc == 0:
